@@ -509,8 +509,12 @@ func (h *History) step(act int) {
 			rapid.IntRange(0, 7).Draw(t, "twin") == 0 {
 			prev := h.ds[n-1]
 			d.Desc = prev.Desc
-			if rapid.Bool().Draw(t, "twinPrefix") {
+			switch rapid.IntRange(0, 2).Draw(t, "twinKind") {
+			case 0:
 				bs = append(append([]ref.Booking{}, prev.Bookings...), bs...)
+			case 1:
+				// an exact copy that can differ only in what follows the bookings in no ordering: its annotations
+				bs = append([]ref.Booking{}, prev.Bookings...)
 			}
 		}
 		h.book(bs, d)
